@@ -2,6 +2,7 @@ package exec
 
 import (
 	"fmt"
+	"go/constant"
 	"math"
 	"go/types"
 	"strconv"
@@ -503,6 +504,35 @@ func init() {
 			}
 			c.ret(c.m.lastMarshal)
 		},
+		// ---- nhooyr.io/websocket: connections are opaque objects with one abstract field, the message read limit ----
+		"nhooyr.io/websocket.Accept": func(c *stubCtx) { c.ret(Tuple{c.m.newWSConn(), Iface{}}) },
+		"nhooyr.io/websocket.Dial":   func(c *stubCtx) { c.ret(Tuple{c.m.newWSConn(), Ptr{}, Iface{}}) },
+		"(*nhooyr.io/websocket.Conn).SetReadLimit": func(c *stubCtx) {
+			w := wsConnOf(c.args[0])
+			if w == nil {
+				c.m.goPanic(c.t, "runtime error: invalid memory address or nil pointer dereference", c.ins)
+				return
+			}
+			// library doc: SetReadLimit sets the max number of bytes to read for a single message; -1 disables the limit
+			w.limit = c.args[1].(*smt.Term)
+			c.ret(nil)
+		},
+		"(*nhooyr.io/websocket.Conn).Reader": func(c *stubCtx) {
+			c.ret(Tuple{smt.BV(64, 0), Iface{}, c.m.mkError(mkStr("verif: no message (websocket reads are not modelled)"))})
+		},
+		"(*nhooyr.io/websocket.Conn).Close":  func(c *stubCtx) { c.ret(Iface{}) },
+		"nhooyr.io/websocket.CloseStatus":    func(c *stubCtx) { c.ret(smt.BV(64, ^uint64(0))) },
+		"context.Background":                 func(c *stubCtx) { c.ret(Iface{T: c.m.P.errType, V: Ptr{}}) },
+		"(*net/http.Request).Context":        func(c *stubCtx) { c.ret(Iface{T: c.m.P.errType, V: Ptr{}}) },
+		"(*net/url.URL).String":              func(c *stubCtx) { c.ret(mkStr("ws://verif.invalid/")) },
+		"internal/abi.NoEscape": func(c *stubCtx) { c.ret(c.args[0]) },
+		"verifWSReadLimit": func(c *stubCtx) {
+			w := wsConnOf(c.args[0])
+			if w == nil {
+				panic(unsupported("verifWSReadLimit on a value that is not a stubbed websocket connection"))
+			}
+			c.ret(w.limit)
+		},
 		"errors.Is": func(c *stubCtx) {
 			// identity comparison only (wrapped chains built by the fmt.Errorf stub are opaque)
 			c.ret(c.m.equal(c.args[0], c.args[1], c.ins))
@@ -742,4 +772,38 @@ func (m *Machine) isEOF(err Iface) bool {
 		return false
 	}
 	return m.equal(eof, err, nil).IsTrue()
+}
+
+type wsConn struct{ limit *smt.Term }
+
+// newWSConn creates a stubbed *websocket.Conn whose read limit starts at the library's default, read from the module's
+// own source (const defaultReadLimit) on every run.
+func (m *Machine) newWSConn() Value {
+	def := int64(32768)
+	if wp := m.P.Prog.ImportedPackage("nhooyr.io/websocket"); wp != nil {
+		if nc, ok := wp.Members["defaultReadLimit"].(*ssa.NamedConst); ok {
+			if v, ok := constant.Int64Val(nc.Value.Value); ok {
+				def = v
+			}
+		}
+	}
+	m.Res.Assumptions[fmt.Sprintf("nhooyr.io/websocket: a new Conn has a message read limit of %d bytes (const defaultReadLimit read from the module source); SetReadLimit(n) sets it, n<0 disables it", def)] = true
+	box := m.newCells(1)
+	box.E[0] = &Opaque{Tag: "wsconn", X: &wsConn{limit: smt.BV(64, uint64(def))}}
+	return Ptr{box, 0}
+}
+
+func wsConnOf(v Value) *wsConn {
+	if ifc, isI := v.(Iface); isI {
+		v = ifc.V
+	}
+	p, ok := v.(Ptr)
+	if !ok || p.C == nil {
+		return nil
+	}
+	o, ok := p.C.E[p.I].(*Opaque)
+	if !ok || o.Tag != "wsconn" {
+		return nil
+	}
+	return o.X.(*wsConn)
 }
